@@ -69,7 +69,11 @@ func emitList(name string, v []string) {
 }
 func emitInt(name string, v string) {
 	nfacts++
-	jsonFacts[name] = v
+	if iv, err := strconv.Atoi(strings.Trim(v, "()")); err == nil {
+		jsonFacts[name] = iv
+	} else {
+		jsonFacts[name] = v
+	}
 	if strings.HasPrefix(v, "-") {
 		fmt.Fprintf(&out, "def %s : Int := (%s)\n", name, v)
 	} else {
